@@ -26,6 +26,9 @@ type c03Case struct {
 	Res   []string `json:"res,omitempty"` // generated resources (besides the fixture Patient)
 	Spare int      `json:"spare"`         // spare capacity of the collection variables
 	Empty bool     `json:"empty"`         // %e is an empty slice with capacity (else a nil slice)
+	// Sloppy: the temporal primitives of the inputs lack precision and time zone, as in
+	// hand-built protos (&dtpb.Date{ValueUs: …}); evaluation may fail but must not "repair" them
+	Sloppy bool `json:"sloppy,omitempty"`
 }
 
 var c03Templates = []string{
@@ -35,11 +38,13 @@ var c03Templates = []string{
 	"%shared1.exclude(%shared2)", "%shared1.where(true)", "%shared1 = %shared2", "%shared1.tail().tail()", "%shared1.select($this & 'y')", "%shared1.children()", "%names.descendants()", "%names.select(given)", "%names.where(use = 'official').given",
 	"%names.first().given.tail()", "%pat.name.given", "%pat.children().descendants()", "%pat.extension('http://example.org/a').value", "%pat.managingOrganization.reference", "%pat.contained", "%name.given & 'x'", "%names.exclude(%pat.name)", "%names.intersect(%pat.name)",
 	"Patient.name.tail().given", "Patient.name.where(family.exists()).select(given.first())", "Patient.deceased as boolean", "Patient.name[0] is HumanName", "Patient.telecom.rank.skip(1)", "Patient.children()", "Patient.descendants().where($this is string)", "Patient.extension.value", "Patient.name.given.distinct()", "Patient.name.given.toChars()",
+	"Patient.name.given.intersect(%givens)", "%givens.intersect(Patient.name.given)", "Patient.name.given.exclude(%givens)", "%givens.exclude(Patient.name.given)", "%prims.distinct()", "%prims.isDistinct()", "%prims.intersect(%prims)", "%prims = %prims", "%prims.where($this = 1)", "%prims.select($this.toString())", "%givens.where($this = 'zz')", "%givens & 'x'", "%prims.exclude(%givens)", "Patient.name.use.intersect(%prims)", "%prims.first() + 1", "%givens.first().length()", "%prims.skip(5) < @2021", "%givens.all($this.exists())", "%prims.take(2).combine(%givens)",
+	"Patient.birthDate = @1974-12-25", "Patient.birthDate < today()", "Patient.birthDate.toString()", "Patient.birthDate + 1 year", "Patient.descendants().where($this is date or $this is dateTime).select($this.toString())", "Patient.birthDate | Patient.deceased", "Patient.birthDate is date", "%pat.birthDate.toDateTime()", "Patient.descendants().select($this = $this)",
 	"Patient.name.exclude(Patient.name.take(1))", "Patient.name.intersect(%names)", "iif(%e.exists(), %spare, %shared1)", "%spare.join(',')", "%strs2.join('-') & %e", "%spare.count() + %e.count()", "%spare.zzNoSuchFn()", "%spare.where($this > 'x')", "%names.family.upper() & %e",
 }
 
 func c03Gen(s Src) c03Case {
-	c := c03Case{Spare: s.Range(1, 3), Empty: s.Bool()}
+	c := c03Case{Spare: s.Range(1, 3), Empty: s.Bool(), Sloppy: s.Prob(20)}
 	switch s.Intn(10) {
 	case 0, 1, 2, 3:
 		c.Src = pickOne(s, c03Templates)
@@ -49,7 +54,7 @@ func c03Gen(s Src) c03Case {
 		p := genProgramOf(s, pickOne(s, []string{"C", "C", "E", "S", "B", "C"}), s.Range(1, 4), pickOne(s, []int{0, 10}))
 		c.Src = p.min()
 		// make the generated program use the aliasing variables
-		for _, r := range [][2]string{{"%ints", "%spare"}, {"%strs", "%shared1"}, {"%none", "%e"}} {
+		for _, r := range [][2]string{{"%ints", "%spare"}, {"%strs", "%shared1"}, {"%none", "%e"}, {"%mixed", "%prims"}, {"%names", "%givens"}} {
 			if s.Prob(60) {
 				c.Src = strings.ReplaceAll(c.Src, r[0], r[1])
 			}
@@ -204,6 +209,37 @@ func newBacking(name string, full []any) *backing {
 	return b
 }
 
+// c03Sloppify clears precision and timezone of every Date/DateTime/Time/Instant below m.
+func c03Sloppify(m protoreflect.Message, depth int) {
+	if depth > 40 {
+		return
+	}
+	switch m.Descriptor().FullName() {
+	case "google.fhir.r4.core.Date", "google.fhir.r4.core.DateTime", "google.fhir.r4.core.Time", "google.fhir.r4.core.Instant":
+		for _, n := range []protoreflect.Name{"precision", "timezone"} {
+			if f := m.Descriptor().Fields().ByName(n); f != nil {
+				m.Clear(f)
+			}
+		}
+		return
+	case "google.protobuf.Any":
+		return
+	}
+	m.Range(func(fd protoreflect.FieldDescriptor, v protoreflect.Value) bool {
+		if fd.Message() == nil {
+			return true
+		}
+		if fd.IsList() {
+			for i := 0; i < v.List().Len(); i++ {
+				c03Sloppify(v.List().Get(i).Message(), depth+1)
+			}
+		} else if !fd.IsMap() {
+			c03Sloppify(v.Message(), depth+1)
+		}
+		return true
+	})
+}
+
 func c03Run(ctx *Ctx, c c03Case) {
 	pat := fixturePatient()
 	resources := []fhir.Resource{pat}
@@ -245,18 +281,16 @@ func c03Run(ctx *Ctx, c c03Case) {
 	vars["shared1"] = system.Collection(shared[0:2])
 	vars["shared2"] = system.Collection(shared[2:4])
 	vars["names"] = mk("%names", []any{pat.Name[0], pat.Name[1], pat.Name[2]}, c.Spare)
+	// collections of FHIR primitive elements (the resource's own nodes and free-standing ones):
+	// functions that convert their operands to System values must not write the converted
+	// values back into the caller's collection
+	vars["givens"] = mk("%givens", []any{pat.Name[0].Given[0], pat.Name[1].Given[0], &dtpb.String{Value: "zz"}}, c.Spare)
+	vars["prims"] = mk("%prims", []any{&dtpb.String{Value: "a"}, &dtpb.Integer{Value: 1}, &dtpb.Boolean{Value: true}, &dtpb.Code{Value: "official"}, &dtpb.Decimal{Value: "1.0"}, pat.BirthDate}, c.Spare)
 
 	e, cerr, pan, _ := compileGuarded(c.Src)
 	if pan != "" || cerr != nil || e == nil {
 		ctx.Eval(c.Src, false, "outcome:compile-error")
 		return
-	}
-	// snapshots
-	var snaps []snap
-	own := map[any]bool{}
-	for _, r := range resources {
-		snaps = append(snaps, snapshot(r))
-		ownNodes(r.ProtoReflect(), own, 0)
 	}
 	// reference strings are synthesised by the evaluator (documented exemption)
 	synth := map[string]bool{}
@@ -270,6 +304,35 @@ func c03Run(ctx *Ctx, c c03Case) {
 				}
 			})
 		}
+	}
+	if c.Sloppy {
+		for _, r := range resources {
+			c03Sloppify(r.ProtoReflect(), 0)
+		}
+	}
+	// snapshots
+	var snaps []snap
+	own := map[any]bool{}
+	for _, r := range resources {
+		snaps = append(snaps, snapshot(r))
+		ownNodes(r.ProtoReflect(), own, 0)
+	}
+	// elements supplied through variables are inputs, too
+	var addOwn func(v any)
+	addOwn = func(v any) {
+		switch x := v.(type) {
+		case system.Collection:
+			for _, it := range x {
+				addOwn(it)
+			}
+		case proto.Message:
+			if x != nil && x.ProtoReflect().IsValid() {
+				ownNodes(x.ProtoReflect(), own, 0)
+			}
+		}
+	}
+	for _, k := range sortedKeys(vars) {
+		addOwn(vars[k])
 	}
 	fpBefore := exprFingerprint(e)
 	var eopts []fhirpath.EvaluateOption
